@@ -180,6 +180,51 @@ func maxi64(a, b int64) int64 {
 	return b
 }
 
+// AddTwin gives one series of d a twin: the same labels under another metric name. With a
+// hand-over inside the window the two never have a sample at the same step (legal after the name
+// is dropped: one output series); overlapping, they are a duplicate label set wherever the name
+// is dropped.
+func AddTwin(r *Rng, d *Dataset, w Window, lookback int64, hostile, handover bool) {
+	if len(d.Series) == 0 {
+		return
+	}
+	si := r.Intn(len(d.Series))
+	src := d.Series[si]
+	name, ok := src.Labels["__name__"]
+	if !ok || name == "h_bucket" {
+		return
+	}
+	ls := map[string]string{}
+	for k, v := range src.Labels {
+		ls[k] = v
+	}
+	for _, m := range metricNames {
+		if m != name {
+			ls["__name__"] = m
+			break
+		}
+	}
+	tw := Series{Labels: ls}
+	if handover && len(src.Samples) > 1 {
+		cut := w.StartMs + r.Int63n(w.EndMs-w.StartMs+1)
+		var keep []Sample
+		for _, sm := range src.Samples {
+			if sm.T < cut {
+				keep = append(keep, sm)
+			} else {
+				tw.Samples = append(tw.Samples, Sample{T: sm.T, V: sm.V + 1})
+			}
+		}
+		if r.P(0.5) && len(keep) > 0 {
+			keep = append(keep, Sample{T: keep[len(keep)-1].T + 1, V: StaleNaN})
+		}
+		d.Series[si].Samples = keep
+	} else {
+		tw.Samples = GenSamples(r, w, lookback, hostile)
+	}
+	d.Series = append(d.Series, tw)
+}
+
 // GenDataset: 0..maxSeries series over m0, m1 (labels a,b,c possibly absent) and, when
 // withHist, a small classic histogram h_bucket.
 func GenDataset(r *Rng, w Window, lookback int64, maxSeries int, hostile, withHist bool) Dataset {
@@ -205,42 +250,7 @@ func GenDataset(r *Rng, w Window, lookback int64, maxSeries int, hostile, withHi
 		d.Series = append(d.Series, Series{Labels: ls, Samples: GenSamples(r, w, lookback, hostile)})
 	}
 	if n > 0 && r.P(0.1) {
-		// twins: the same labels under two metric names. With a hand-over inside the window the two
-		// never have a sample at the same step (legal after the name is dropped, one output series);
-		// overlapping, they are a duplicate label set wherever the name is dropped.
-		si := r.Intn(n)
-		src := d.Series[si]
-		if name, ok := src.Labels["__name__"]; ok {
-			ls := map[string]string{}
-			for k, v := range src.Labels {
-				ls[k] = v
-			}
-			for _, m := range metricNames {
-				if m != name {
-					ls["__name__"] = m
-					break
-				}
-			}
-			tw := Series{Labels: ls}
-			if r.P(0.7) && len(src.Samples) > 1 {
-				cut := w.StartMs + r.Int63n(w.EndMs-w.StartMs+1)
-				var keep []Sample
-				for _, sm := range src.Samples {
-					if sm.T < cut {
-						keep = append(keep, sm)
-					} else {
-						tw.Samples = append(tw.Samples, Sample{T: sm.T, V: sm.V + 1})
-					}
-				}
-				if r.P(0.5) && len(keep) > 0 {
-					keep = append(keep, Sample{T: keep[len(keep)-1].T + 1, V: StaleNaN})
-				}
-				d.Series[si].Samples = keep
-			} else {
-				tw.Samples = GenSamples(r, w, lookback, hostile)
-			}
-			d.Series = append(d.Series, tw)
-		}
+		AddTwin(r, &d, w, lookback, hostile, r.P(0.7))
 	}
 	if withHist {
 		groups := 1 + r.Intn(2)
@@ -765,6 +775,7 @@ func leadingIdent(s string) string {
 	return s[:i]
 }
 
+var reRange = regexp.MustCompile(`\[[^\]]+\]`)
 var reMetricUse = regexp.MustCompile(`\b(m[01]|h_bucket)\b`)
 
 // GenQuery generates a query; a twelfth of the vector-typed ones additionally select the metric of
@@ -814,7 +825,18 @@ func genQuery(r *Rng, g *GenCfg) string {
 		}
 		return s
 	case "rangefn":
-		return q.rangeFn()
+		f := q.rangeFn()
+		if r.P(0.1) {
+			// the same function over the same selector with another range: the two selects differ in
+			// their start only
+			other := durStr(Pick(r, []int64{15_000, 30_000, 60_000, 150_000, 300_000, 600_000}))
+			f2 := reRange.ReplaceAllString(f, "["+other+"]")
+			if r.P(0.5) {
+				return f + " - " + f2
+			}
+			return f2 + " - " + f
+		}
+		return f
 	case "agg":
 		return q.agg(d)
 	case "binary":
